@@ -254,6 +254,11 @@ def step (w : World) (line : String) : World × String :=
          | none => (w, "badop"))
       | none => (w, "badop")
     | _ => (w, "badop")
+  else if cmd == "aliasing" then
+    -- harness-side storage discipline (accounts keep / hand out slices by reference); the model has values, not slices
+    match rest with
+    | [onoff] => if onoff == "on" || onoff == "off" then (w, "aliasing ok") else (w, "badop")
+    | _ => (w, "badop")
   else if cmd == "notifier" then
     match rest with
     | ["off"] => ({ w with regEpoch := none }, "notifier ok")
